@@ -347,10 +347,7 @@ def circuit_functions(ctx):
         flip_src = expr(kids(flip_decl)[0], fenv)
         flips[flipname] = flip_src
         out.append("/-- the `flipped` set of `Circuit::%s` -/\ndef %s (orient : Orient) : Bool :=\n  %s\n" % (name, flipname, flip_src))
-
-        class E2(Env):
-            pass
-        env = E2(ctx, {"net": "net", "i": "i"}, members)
+        env = Env(ctx, {"net": "net", "i": "i"}, members)
         # compile with `flipped` bound to the generated definition so the structure stays visible
         pre = []
         for s in stmts:
@@ -398,7 +395,7 @@ def generate():
         parts.append(src)
     parts.append(circuit_functions(ctx))
     parts.append("end ColoVerif.Gen\n")
-    return {"OrientTables.lean": "\n".join(parts), "info": info}
+    return {"info": info, "OrientTables.lean": "\n".join(parts)}
 
 
 if __name__ == "__main__":
